@@ -48,6 +48,7 @@ def parseSrc (j : Json) : Except String SrcKind := do
     let own := match (j.getObjVal? "own") with | .ok (Json.bool b) => b | _ => false
     pure (.proj (← fNat j "x") (← fStr j "srcRank") (← fInt j "off") (← parseOptInt j "lo") (← parseOptInt j "hi") own)
   | "dense" => pure (.dense (← fNat j "x") (← fNat j "shape"))
+  | "orand" => pure (.orAnd (← fNat j "x") (← fNat j "y"))
   | s => throw s!"C16: unknown source kind {s}"
 
 def parseLevel (j : Json) : Except String Level := do
@@ -132,7 +133,7 @@ def hasEmptyElems (dflt : Int) : (d : Nat) → Tree Int Int d → Bool
       (fun e => isEmpty dflt d e.2 || hasEmptyElems dflt d e.2)
 
 def srcTag : SrcKind → String
-  | .fiber _ => "fiber" | .and .. => "and" | .lf .. => "lf" | .proj .. => "proj" | .dense .. => "dense"
+  | .fiber _ => "fiber" | .and .. => "and" | .lf .. => "lf" | .proj .. => "proj" | .dense .. => "dense" | .orAnd .. => "orand"
 
 def tyFamily (ty : String) : String :=
   if ty.startsWith "intersect_" then "intersect"
